@@ -6,11 +6,45 @@
 #include <sys/wait.h>
 #include <librfn/rand.h>
 
+/* the generator reached through its external symbol, and through callers whose own pointer variable has an everyday name
+ * (or a name the header's own expansion uses, if it has one: the list comes from the check) */
+static uint32_t (*volatile p_rand31_r)(uint32_t *) = rand31_r;
+#ifdef VP_NAMES_H
+#include VP_NAMES_H
+#else
+#define VP_NAMES(X) X(sp) X(p) X(s) X(seed) X(seedp) X(hi) X(lo) X(x) X(state) X(r) X(t) X(tmp) X(ptr) X(v) X(n) X(ret) X(res) X(a) X(q) X(rng)
+#endif
+#define VP_DRAW(nm) static uint32_t __attribute__((noinline)) draw_##nm(uint32_t *nm) { return rand31_r(nm); }
+VP_NAMES(VP_DRAW)
+#define VP_ENT(nm) draw_##nm,
+static uint32_t (*const draws[])(uint32_t *) = { VP_NAMES(VP_ENT) };
+#define NDRAW (sizeof(draws) / sizeof(draws[0]))
+static void __attribute__((noinline)) stack_fill(int byte)
+{
+	volatile unsigned char junk[8192];
+	for (unsigned i = 0; i < sizeof(junk); i++) junk[i] = (unsigned char)byte;
+}
+struct holder { char pad; uint32_t seeds[3]; };
+
 static uint32_t ref(uint32_t s) { return (uint32_t)(((uint64_t)16807 * s) % 0x7fffffffu); }
 static void vec(uint32_t s)
 {
-	uint32_t seed = s;
-	uint32_t r = rand31_r(&seed);
+	/* where the caller keeps the state and how it reaches the generator varies from call to call */
+	static unsigned how;
+	uint32_t seed = s, r;
+	unsigned h = how++ % (NDRAW + 4);
+	if (h < NDRAW) { stack_fill(h & 1 ? 0xff : 0); r = draws[h](&seed); }
+	else if (h == NDRAW) r = p_rand31_r(&seed);
+	else if (h == NDRAW + 1) r = (rand31_r)(&seed);
+	else if (h == NDRAW + 2) {
+		uint32_t *heap = malloc(sizeof(*heap));
+		*heap = s; r = rand31_r(heap); seed = *heap; free(heap);
+	} else {
+		struct holder *hd = calloc(1, sizeof(*hd));
+		hd->seeds[1] = s; r = rand31_r(&hd->seeds[1]); seed = hd->seeds[1];
+		if (hd->seeds[0] || hd->seeds[2] || hd->pad) r = 0;
+		free(hd);
+	}
 	printf("{\"e\":\"R\",\"s\":[%u,%u],\"r\":[%u,%u],\"seed\":[%u,%u],\"o\":[%u,%u]}\n", s >> 16, s & 0xffff, r >> 16, r & 0xffff,
 	       seed >> 16, seed & 0xffff, ref(s) >> 16, ref(s) & 0xffff);
 }
@@ -37,9 +71,14 @@ static void sweep(int nproc)
 		if (pipe(fds[w])) exit(3);
 		if (fork() == 0) {
 			unsigned long long bad = 0, n = 0, first = 0;
+			uint32_t *heap = malloc(sizeof(*heap));
 			for (uint32_t s = 1 + w; s < 0x7fffffffu; s += nproc) {
 				uint32_t seed = s, r = rand31_r(&seed), e = ref(s);
 				if ((r != e || seed != e || e == 0 || e >= 0x7fffffffu) && !bad++) first = s;
+				/* ... the external symbol, and a state that lives on the heap */
+				*heap = s;
+				uint32_t r2 = p_rand31_r(heap);
+				if ((r2 != e || *heap != e) && !bad++) first = s;
 				n++;
 			}
 			unsigned long long o[3] = { n, bad, first };
